@@ -29,6 +29,7 @@ def run(ctx):
     tables.lookups_answer_from_table(ctx, s, ("is_deleted", "when_is_naddr_deleted"))
     lifecycle.covered_events_removed(ctx, s)
     lifecycle.all_tags_examined(ctx, s)
+    lifecycle.removal_scan_window(ctx, s)
     marker_key_exact(ctx, s)
 
 
